@@ -22,7 +22,7 @@ PROPS_ALL = {
         "module": "p_sketch",
         "technique": "Coq proof (induction over increment sequences, bit-level refinement) + lock-step correspondence on raw sketch words",
         "level_text": "Theorems in Coq about a bit-level Gallina model of FrequencySketch for all capacities, all hash sequences and all interleavings with aging steps (bounded by 15, never underestimates the saturating/halved reference count, exact without collision, monotone except aging, aging halves every estimate, no overflow/out-of-bounds); the model is tied to the code by running the extracted model and the real FrequencySketch (through a cfg-guarded facade) on the same operation sequences and comparing every table word, size, sample size and mask after every operation, and by regenerating SEED/RESET_MASK/ONE_MASK and the capacity clamps from the Rust source on every run.",
-        "level_note": "Trusted: Coq kernel; extraction (ExtrOcamlBasic) and the OCaml driver; the harness/facade/compare scripts (differential testing over sampled sequences, measured in the evidence); constants translator. Hypothesis: table shorter than 2^28 words for the no-overflow clause. The cache-level clause (only get records) is covered by the cache models (C14 is extended when they land).",
+        "level_note": "Trusted: Coq kernel; extraction (ExtrOcamlBasic) and the OCaml driver; the harness/facade/compare scripts (differential testing over sampled sequences, measured in the evidence); constants translator. Hypothesis: table shorter than 2^28 words for the no-overflow clause. Cache level (only get records): unsync u_get_sketch + frame lemmas, sync sstep_get_records_once / sstep_records_nothing / s_sync_reads_consumed; checked on the implementation by the only-get-records oracle over cache histories.",
         "trusted_base": TB_COMMON,
         "assumptions": [
             "hash values are arbitrary u64 (the hasher is any pure function)",
@@ -83,13 +83,13 @@ PROPS_ALL["C16"] = cache_prop(
     "Theorems for both cache models, all states/histories: an iteration at reading now lists, without duplicates, exactly the physically held entries that are not expired at now, each with its current value, and every listed entry is justified by the history (never expired/invalidated); iteration changes no state. PARTIAL: the clause about concurrent writers (DashMap shard iteration) is not modelled yet; it is exercised by real-thread stress only when the concurrent harness lands." + TIE)
 PROPS_ALL["C08"] = cache_prop(
     "C08", "Coq proof (inductive well-formedness invariant => no checked operation fails) + outcome lock-step with overflow checks/debug assertions on + structural walker oracle",
-    "Every raw-pointer dereference, Box::from_raw, unreachable!, expect/unwrap and non-wrapping arithmetic of the source is a checked operation of the models. Theorems: for ALL configurations and histories (< 2^24 ops) the single-threaded cache model never returns Err and stays well formed (node<->entry bijection, no dangling pointer); the sketch never overflows or indexes out of bounds. PARTIAL: the same theorem for the concurrent cache (sequential regime) is being proved (Sync/SInv*.v) and the pointer-level deque refinement is in progress; until they land those parts are covered by the lock-step correspondence (implementation panics/aborts must coincide with model Err), the structural walker and the crash oracle only. Interleavings, allocator behaviour and hardware data races are not modelled." + TIE)
+    "Every raw-pointer dereference, Box::from_raw, unreachable!, expect/unwrap and non-wrapping arithmetic of the source is a checked operation of the models. Theorems: for ALL configurations and histories (< 2^24 ops) the single-threaded cache model never returns Err and stays well formed (node<->entry bijection, no dangling pointer); the sketch never overflows or indexes out of bounds. The same for the concurrent cache model in its sequential regime (srun_safe: 28-clause invariant SInv inductive incl. the in-flight op of the implicit housekeeper; no ghost node, no dangling pointer, retry loop never out of fuel) and for the intrusive list at POINTER level (heap of nodes, every dereference checked): every operation sequence within the unsafe contract is safe and refines the list model, dropping frees every node once, out-of-contract use is detected. PARTIAL: interleavings (covered by crash/walker/live-object oracles at the end of explored schedules), allocator behaviour and hardware data races are not modelled; Miri is not part of the quick tier." + TIE)
 PROPS_ALL["C10"] = cache_prop(
     "C10", "Coq proof (accounting clauses of the inductive invariant) + lock-step correspondence on counters + counters-vs-physical oracle",
-    "Theorem for ALL configurations and histories of the single-threaded cache model: after every operation entry_count = number of map entries and weighted_size = sum of their weights (and weights are the weigher's). PARTIAL: for the concurrent cache the corresponding theorem (after a maintenance run that leaves nothing queued: entry_count = |map| = |deque|, weighted_size = weigher sum) is proved on top of contract lemmas whose proof is in progress (Sync/SInvTop.v / SInvWrites.v); until it lands the sync half is decided by the correspondence and the oracle only." + TIE)
+    "Theorem for ALL configurations and histories of the single-threaded cache model: after every operation entry_count = number of map entries and weighted_size = sum of their weights (and weights are the weigher's). Concurrent cache (sequential regime, all histories): every maintenance run empties both queues (sync_quiescent) and whenever nothing is queued entry_count = |map| = |deque nodes| and weighted_size = the weigher's sum over the map, every map entry is admitted and every node belongs to the map entry of its key (quiescent_counters). PARTIAL: after multi-threaded schedules this is an oracle check after quiescence." + TIE)
 PROPS_ALL["C11"] = cache_prop(
     "C11", "Coq proof (ownership = node/entry bijection of the inductive invariant; freed-node access is an error) + drop-counting lock-step + live-object oracle",
-    "The models make ownership explicit (a node is live iff member of a deque; entries own their nodes). Theorem for all histories of the single-threaded cache: every node belongs to exactly one resident entry, so the objects referenced by the cache are exactly the resident entries' (as many live key/value objects as residents after every operation). The harness uses drop-counting key/value types and compares live counts with the model after every step and after dropping the cache with ops queued. PARTIAL: sync half pending the SInv proofs (decided by correspondence + oracle meanwhile); that Rc/Arc/Box drop exactly once is Rust's guarantee (trusted)." + TIE)
+    "The models make ownership explicit (a node is live iff member of a deque; entries own their nodes). Theorem for all histories of the single-threaded cache: every node belongs to exactly one resident entry, so the objects referenced by the cache are exactly the resident entries' (as many live key/value objects as residents after every operation). The harness uses drop-counting key/value types and compares live counts with the model after every step and after dropping the cache with ops queued. Concurrent cache: queued read/write ops are the only other owners; at quiescence every node belongs to the map entry of its key and every map entry is admitted (quiescent_counters), so no ghost node pins a key. PARTIAL: that Rc/Arc/Box drop exactly once is Rust's guarantee (trusted); multi-threaded schedules: live-object oracle after quiescence and after dropping the cache." + TIE)
 
 PROPS_ALL["C17"] = dict(cache_prop(
     "C17", "Coq proof (builder/policy model: computation + case analysis) + builder sweep and differential histories against the implementation",
@@ -97,7 +97,7 @@ PROPS_ALL["C17"] = dict(cache_prop(
 
 PROPS_ALL["C15"] = dict(cache_prop(
     "C15", "Coq proof (literal purity + metamorphic theorem by induction over insertions for the concurrent cache; identity / maintenance-only frame lemmas for the single-threaded cache) + metamorphic differential runs on the implementation",
-    "Theorems: for the concurrent cache model, for ALL histories h and ALL ways h' of inserting contains_key/iter calls, h' runs to the same final state with identical results for the operations of h (and conversely); for the single-threaded cache model iteration is the identity on the state and contains_key is exactly the maintenance every operation starts with (never touching sketch, timestamps or the relative recency order of what it leaves). The single-threaded metamorphic theorem outside the class PendingExcessAtObservation is in Unsync/UPurity.v (in progress); inside that class the property is genuinely violated by the unchanged code (recorded known finding D-U5, reproduced on every run). Tie: metamorphic pairs are run on the real caches (all original outputs must coincide; inserted calls must leave the internal state of the concurrent cache / of iter untouched), plus the usual lock-step of both runs against the models."), module="p_meta")
+    "Theorems: for the concurrent cache model, for ALL histories h and ALL ways h' of inserting contains_key/iter calls, h' runs to the same final state with identical results for the operations of h (and conversely); for the single-threaded cache model iteration is the identity on the state and contains_key is exactly the maintenance every operation starts with (never touching sketch, timestamps or the relative recency order of what it leaves). For the single-threaded cache the metamorphic theorem is proved outside the class PendingExcessAtObservation (unsync_observations_pure: key universe smaller than a batch, no inserted contains_key starting with an update-created excess pending); inside that class the property is genuinely violated by the unchanged code (recorded known finding D-U5, reproduced on every run). Tie: metamorphic pairs are run on the real caches (all original outputs must coincide; inserted calls must leave the internal state of the concurrent cache / of iter untouched), plus the usual lock-step of both runs against the models."), module="p_meta")
 
 NOTE_CONC = ("Trusted/assumed (not proved): sequential consistency of the atomics (Acquire/Release/Relaxed are modelled as SC), DashMap's per-key "
              "linearisability and iterator contract, crossbeam-channel's bounded FIFO semantics, the OS scheduler; the controlled scheduler only "
@@ -110,16 +110,16 @@ PROPS_ALL["C02"] = dict(cache_prop(
 
 PROPS_ALL["C03"] = cache_prop(
     "C03", "Coq proof (completeness = converse simulation for unbounded caches; step characterisations of insert/maintenance/invalidation on the map view) + lock-step correspondence + no-loss oracle with removal causes + refill probe",
-    "Theorems for the single-threaded cache model, all well-formed states / all histories: without max_capacity every reference-live entry is returned by get/contains_key/iteration (the cache is exactly a map with expiry); a new key that fits is admitted and evicts nothing; maintenance removes an entry only if it is expired or the cache is over capacity; get/contains_key remove nothing else, invalidation removes exactly its targets, updates evict nothing. PARTIAL: for the concurrent cache the no-loss statements are decided by the lock-step correspondence (model = repaired code), the no-loss oracle on implementation traces (no capacity pressure => every live entry returned; idle-timer extension of a get counted only once maintenance has applied it) and the refill probe after sequential histories and after every explored multi-threaded schedule; the structural basis (no ghost / no orphan entries, counters = physical after maintenance) is Sync/SInvTop.v + SInvWrites.v." + TIE)
+    "Theorems for the single-threaded cache model, all well-formed states / all histories: without max_capacity every reference-live entry is returned by get/contains_key/iteration (the cache is exactly a map with expiry); a new key that fits is admitted and evicts nothing; maintenance removes an entry only if it is expired or the cache is over capacity; get/contains_key remove nothing else, invalidation removes exactly its targets, updates evict nothing. Concurrent cache (sequential regime, all sync placements, both housekeeping regimes): without max_capacity every entry live under the weak reference (a get extends the idle timer only once maintenance applied it) is returned (s_trace_complete_all); a maintenance run on a quiescent state removes an entry only if expired or over capacity; a pending fresh insert that fits is admitted by the next maintenance run and evicts nothing. PARTIAL: multi-threaded schedules are covered by the no-loss oracle and the refill probe after quiescence of every explored schedule, not by a theorem." + TIE)
 PROPS_ALL["C04"] = cache_prop(
     "C04", "Coq proof (accounting invariant + step characterisations: weighted size never grows beyond capacity except by an in-place update, maintenance removes the excess) + lock-step correspondence on counters/weights + capacity oracle",
-    "Theorems for the single-threaded cache model, every operation from every well-formed state: weighted_size (= physical resident weight, C10) never grows beyond max(capacity, previous) except by the weight growth of an in-place update; the maintenance every operation starts with brings it within capacity or evicts a whole batch; a fresh insert heavier than the capacity is never retained and touches nothing. PARTIAL: for the concurrent cache (after maintenance that empties the queues) the bound rests on the accounting theorem of Sync/SInvTop.v (counters = physical) and is otherwise decided by the correspondence and the capacity oracle (sequential histories, bursts, and the end of every explored schedule); the overshoot bound between maintenance runs is the abstract housekeeper model (Conc/HK.v) when it lands." + TIE)
+    "Theorems for the single-threaded cache model, every operation from every well-formed state: weighted_size (= physical resident weight, C10) never grows beyond max(capacity, previous) except by the weight growth of an in-place update; the maintenance every operation starts with brings it within capacity or evicts a whole batch; a fresh insert heavier than the capacity is never retained and touches nothing. Concurrent cache (sequential regime): after every maintenance run nothing is queued, weighted_size is the weigher's sum over the map, and it is within capacity or a whole batch was evicted (s_sync_capacity); a pending oversized fresh insert is rejected by the next maintenance run. Between maintenance runs, for all interleavings of any number of inserting threads, the abstract housekeeper/channel/mutex model (Conc/HK.v) bounds the overshoot by the write-queue size plus one entry per thread. PARTIAL: that the real threads follow the protocol model is checked by acceptance of the flag/lock traces on explored schedules and by the capacity oracle after quiescence, not proved." + TIE)
 PROPS_ALL["C12"] = cache_prop(
     "C12", "Coq proof (loop invariants of evict_lru_entries / admit on the LRU list; recency characterisation of every operation) + lock-step correspondence on deque order + LRU-prefix oracle",
-    "Theorems for the single-threaded cache model, all well-formed states, capacities and weights (incl. 0): size eviction removes a prefix of the LRU order, the shortest covering the excess (or a whole batch); admission victims are the shortest LRU prefix reaching the newcomer's weight; insert, update and successful get move the key to the MRU end and nothing else reorders (maintenance, contains_key, invalidation keep the relative order). PARTIAL: the concurrent cache (maintenance after every op) is tied by the lock-step correspondence on the deque order and the LRU-prefix oracle evaluated against the recency order of the history; no separate theorem." + TIE)
+    "Theorems for the single-threaded cache model, all well-formed states, capacities and weights (incl. 0): size eviction removes a prefix of the LRU order, the shortest covering the excess (or a whole batch); admission victims are the shortest LRU prefix reaching the newcomer's weight; insert, update and successful get move the key to the MRU end and nothing else reorders (maintenance, contains_key, invalidation keep the relative order). Concurrent cache with maintenance after every op: the size eviction of a maintenance run on a quiescent state removes the shortest LRU prefix covering the excess (s_evict_lru_prefix) and the admission victims of a pending fresh insert are the shortest LRU prefix reaching its weight (s_pending_insert_outcome). PARTIAL: that applied gets/updates move the key to the MRU end on the concurrent cache is tied by the lock-step correspondence on the deque order and the LRU oracle, no separate theorem." + TIE)
 PROPS_ALL["C13"] = cache_prop(
     "C13", "Coq proof (admit loop = declarative TinyLFU rule on the LRU triples, early exit shown irrelevant) + lock-step correspondence incl. sketch words + prediction oracle from the implementation's own estimates",
-    "Theorem for the single-threaded cache model, all well-formed states/configurations/hashers: a new key that does not fit (and is not oversized) is admitted iff the shortest LRU prefix with weight >= its own exists and its estimate is strictly greater than the summed estimates of that prefix; if admitted exactly that prefix is evicted, otherwise no resident is touched; an oversized newcomer is rejected without touching anything. Scan resistance and 'popular newcomer gets in' are instances. PARTIAL: the concurrent cache (maintenance after every op) is tied by the lock-step correspondence (sketch words, map, deque) and the prediction oracle that recomputes the decision from the implementation's own estimates read just before the insert." + TIE)
+    "Theorem for the single-threaded cache model, all well-formed states/configurations/hashers: a new key that does not fit (and is not oversized) is admitted iff the shortest LRU prefix with weight >= its own exists and its estimate is strictly greater than the summed estimates of that prefix; if admitted exactly that prefix is evicted, otherwise no resident is touched; an oversized newcomer is rejected without touching anything. Scan resistance and 'popular newcomer gets in' are instances. Concurrent cache with maintenance after every op: the same statement for the pending write op of a fresh insert applied by the next maintenance run (s_pending_insert_outcome: no capacity / fits / oversized / TinyLFU admitted with exactly the prefix evicted / rejected with no resident touched)." + TIE)
 
 PROPS_ALL["C09"] = dict(cache_prop(
     "C09", "Coq proof (sequential: every step of the concurrent-cache model returns Ok, fuel of the retry loop never exhausted; concurrent: invariants, deadlock freedom and fair termination of an abstract housekeeper/channel/mutex protocol model, all interleavings) + controlled-scheduler exploration with termination oracle and acceptance of flag/lock traces + single-thread bursts",
